@@ -1,6 +1,6 @@
 //verif:pkg .
 //verif:use streams_mcp
-//verif:bound one session, an old listening stream and a new one; deterministic kernels: (a) a send issued at the very moment the new stream's headers are flushed, (b) a send after the old stream's handler has exited, (c) a stream whose request context ends removes only itself; exploration kernels: (d) old GET, new GET and a sender, (e) an old stream ending through its own request context while a new GET registers, then a send as three goroutines under all schedules at the modelled synchronisation points with <= 2 (thorough 4) forced context switches (engine only)
+//verif:bound one session, an old listening stream and a new one; deterministic kernels: (a) a send issued at the very moment the new stream's headers are flushed, (b) a send after the old stream's handler has exited, (c) a stream whose request context ends removes only itself; exploration kernels: (d) old GET, new GET and a sender, (e) an old stream ending through its own request context while a new GET registers, then a send as three goroutines under all schedules at the modelled synchronisation points with <= 2 (thorough 3) forced context switches (engine only)
 //verif:assume more than one reconnect generation and real network timing are outside the claim
 package mcp
 
@@ -97,7 +97,7 @@ func H_C11_explore() {
 	vAssume(c11Wait(old.flushed))
 	budget := 2
 	if vTier() == 1 {
-		budget = 4
+		budget = 3
 	}
 	vSched(true, budget)
 	nw := c11Open(srv, id, nil)
